@@ -70,3 +70,30 @@ def with_timeout(seconds, fn, *a, **k):
     finally:
         signal.setitimer(signal.ITIMER_REAL, 0)
         signal.signal(signal.SIGALRM, old)
+
+
+def dense(m):
+    """model matrix (pandas / numpy / sparse, possibly wrapped) -> float ndarray; cells that are not numbers become NaN so
+    that a comparison fails (and is reported) instead of crashing the harness"""
+    import numpy as np
+    import pandas as pd
+
+    inner = getattr(m, "__wrapped__", m)
+    try:
+        if hasattr(inner, "toarray"):
+            return np.asarray(inner.toarray(), dtype=float)
+        if isinstance(inner, pd.DataFrame):
+            try:
+                return inner.to_numpy(dtype=float, na_value=np.nan)
+            except (TypeError, ValueError):
+                return inner.apply(pd.to_numeric, errors="coerce").to_numpy(dtype=float, na_value=np.nan)
+        return np.asarray(inner, dtype=float)
+    except (TypeError, ValueError):
+        arr = np.asarray(inner, dtype=object)
+        out = np.full(arr.shape, np.nan)
+        for idx, v in np.ndenumerate(arr):
+            try:
+                out[idx] = float(v)
+            except (TypeError, ValueError):
+                pass
+        return out
